@@ -319,7 +319,9 @@ class Synth:
                 kids.append(elt(e, [], [(a, v)]))
                 kids.append(elt(e, [text(b'c')], [(('l', a[3]), v)]))
                 if j % 4 == 1:
-                    kids.append(elt(e, [], [(('l', a[3] + b'\x00zz'), v)]))    # the literal name is read as a C string
+                    # the literal name is read as a C string (twice: the value is a string-table candidate or not)
+                    kids.append(elt(e, [], [(('l', a[3] + b'\x00zz'), v + b'-rep')]))
+                    kids.append(elt(e, [], [(('l', a[3] + b'\x00zz'), v + b'-rep')]))
             if len(kids) >= 40:
                 out.append(self.wrap(lid, kids)); kids = []
         if kids:
